@@ -32,7 +32,7 @@ Explained(e, M) ==
     [] e.op \in {"add_assign", "sub_assign"} ->
           IF SameShape(M, e.b) THEN GoodMut(e, ModelPost(e, M)) ELSE RejectedSize(e)
     [] e.op \in {"swap_elem", "set", "resize", "transpose_in_place", "clear", "fill", "fill_diag", "fill_band",
-                 "fill_tridiag", "mul_assign", "div_assign", "add_scalar_assign", "sub_scalar_assign", "neg_assign"} ->
+                 "fill_tridiag", "mul_assign", "div_assign", "add_scalar_assign", "sub_scalar_assign", "neg_assign", "clone_from"} ->
           GoodMut(e, ModelPost(e, M))
     [] e.op = "matmul_assign" -> IF Acc_MatMul(M, e.b) THEN GoodMut(e, ModelPost(e, M)) ELSE Rejected(e, M)
     \* ---- observers: the operand must be unchanged and the result must be the definition ----
@@ -43,6 +43,9 @@ Explained(e, M) ==
     [] e.op = "cols" -> GoodI(e, M, M.c)
     [] e.op = "numel" -> GoodI(e, M, M.r * M.c)
     [] e.op = "clone" -> GoodM(e, M, M)
+    \* == and != against the same row-major data laid out as nr x nc (equal only if the shape is the same), and against a clone:
+    \* ri = [==] + 2*[!=] + 4*[clone equal and not unequal]
+    [] e.op = "eq_reshape" -> GoodI(e, M, (IF e.nr = M.r /\ e.nc = M.c THEN 1 ELSE 2) + 4)
     [] e.op = "transpose" -> GoodM(e, M, Transpose(M))
     [] e.op = "neg" -> GoodM(e, M, Neg(M))
     [] e.op = "add" -> IF SameShape(M, e.b) THEN GoodM(e, M, Add(M, e.b)) ELSE RejectedSize(e)
